@@ -215,28 +215,85 @@ type EndnotePos struct {
 	Val     string   `xml:"w:val,attr"`
 }
 
-// 全局脚注/尾注管理器
-var globalFootnoteManager *FootnoteManager
-
-// FootnoteManager 脚注管理器
+// FootnoteManager 脚注管理器（每个文档一个）
 type FootnoteManager struct {
 	nextFootnoteID int
 	nextEndnoteID  int
 	footnotes      map[string]*Footnote
 	endnotes       map[string]*Endnote
+	// 打开的文档原有的脚注/尾注部件及其中注释的ID；新的注释追加到部件里，原有的保持不变
+	baseFootnotes   []byte
+	baseEndnotes    []byte
+	baseFootnoteIDs map[string]bool
+	baseEndnoteIDs  map[string]bool
 }
 
-// getFootnoteManager 获取全局脚注管理器
-func getFootnoteManager() *FootnoteManager {
-	if globalFootnoteManager == nil {
-		globalFootnoteManager = &FootnoteManager{
-			nextFootnoteID: 1,
-			nextEndnoteID:  1,
-			footnotes:      make(map[string]*Footnote),
-			endnotes:       make(map[string]*Endnote),
+// getFootnoteManager 获取本文档的脚注管理器。
+// 文档已经带有脚注/尾注时（打开的文档、由模板克隆的文档），新的ID从已有ID之后开始，
+// 已有的注释计入数量，并且可以按ID删除。
+func (d *Document) getFootnoteManager() *FootnoteManager {
+	if d.footnoteManager != nil {
+		return d.footnoteManager
+	}
+	manager := &FootnoteManager{
+		nextFootnoteID:  1,
+		nextEndnoteID:   1,
+		footnotes:       make(map[string]*Footnote),
+		endnotes:        make(map[string]*Endnote),
+		baseFootnoteIDs: make(map[string]bool),
+		baseEndnoteIDs:  make(map[string]bool),
+	}
+	manager.baseFootnotes = scanExistingNotes(d.parts["word/footnotes.xml"], "footnote", manager.baseFootnoteIDs, &manager.nextFootnoteID)
+	manager.baseEndnotes = scanExistingNotes(d.parts["word/endnotes.xml"], "endnote", manager.baseEndnoteIDs, &manager.nextEndnoteID)
+	d.footnoteManager = manager
+	return manager
+}
+
+// scanExistingNotes 读取已有注释部件中的注释ID（分隔符等特殊注释除外）。
+// 部件中有注释时返回部件的副本，否则返回 nil。
+func scanExistingNotes(part []byte, element string, ids map[string]bool, nextID *int) []byte {
+	if len(part) == 0 {
+		return nil
+	}
+	children, wellFormed := scanRootChildren(part)
+	if !wellFormed {
+		return nil
+	}
+	for _, child := range children {
+		if child.Local != element {
+			continue
+		}
+		id, err := strconv.Atoi(child.Attrs["id"])
+		if err != nil {
+			continue
+		}
+		if id >= *nextID {
+			*nextID = id + 1
+		}
+		if noteType := child.Attrs["type"]; id >= 1 && (noteType == "" || noteType == "normal") {
+			ids[child.Attrs["id"]] = true
 		}
 	}
-	return globalFootnoteManager
+	if len(ids) == 0 {
+		return nil
+	}
+	return append([]byte(nil), part...)
+}
+
+// removeExistingNote 从已有注释部件中删除指定ID的注释
+func removeExistingNote(part []byte, element, id string) ([]byte, bool) {
+	children, wellFormed := scanRootChildren(part)
+	if !wellFormed {
+		return part, false
+	}
+	for _, child := range children {
+		if child.Local == element && child.Attrs["id"] == id && child.End > child.Start {
+			out := make([]byte, 0, len(part))
+			out = append(out, part[:child.Start]...)
+			return append(out, part[child.End:]...), true
+		}
+	}
+	return part, false
 }
 
 // DefaultFootnoteConfig 返回默认脚注配置
@@ -261,7 +318,7 @@ func (d *Document) AddEndnote(text string, endnoteText string) error {
 
 // addFootnoteOrEndnote 添加脚注或尾注的通用方法
 func (d *Document) addFootnoteOrEndnote(text string, noteText string, noteType FootnoteType) error {
-	manager := getFootnoteManager()
+	manager := d.getFootnoteManager()
 
 	// 确保脚注/尾注系统已初始化
 	d.ensureFootnoteInitialized(noteType)
@@ -313,7 +370,7 @@ func (d *Document) addFootnoteOrEndnote(text string, noteText string, noteType F
 
 // AddFootnoteToRun 在现有Run中添加脚注引用
 func (d *Document) AddFootnoteToRun(run *Run, footnoteText string) error {
-	manager := getFootnoteManager()
+	manager := d.getFootnoteManager()
 	d.ensureFootnoteInitialized(FootnoteTypeFootnote)
 
 	noteID := strconv.Itoa(manager.nextFootnoteID)
@@ -455,7 +512,7 @@ func (d *Document) initializeEndnotes() {
 
 // createNoteContent 创建脚注/尾注内容
 func (d *Document) createNoteContent(noteID string, noteText string, noteType FootnoteType) error {
-	manager := getFootnoteManager()
+	manager := d.getFootnoteManager()
 
 	// 创建脚注/尾注段落
 	noteParagraph := &Paragraph{
@@ -493,7 +550,7 @@ func (d *Document) createNoteContent(noteID string, noteText string, noteType Fo
 
 // updateFootnotesFile 更新脚注文件
 func (d *Document) updateFootnotesFile() {
-	manager := getFootnoteManager()
+	manager := d.getFootnoteManager()
 
 	footnotes := &Footnotes{
 		Xmlns:     "http://schemas.openxmlformats.org/wordprocessingml/2006/main",
@@ -516,6 +573,22 @@ func (d *Document) updateFootnotesFile() {
 	}
 	footnotes.Footnotes = append(footnotes.Footnotes, separatorFootnote)
 
+	// 文档原有的脚注部件：只把新的脚注追加进去
+	if manager.baseFootnotes != nil {
+		var fragment []byte
+		for _, footnote := range manager.footnotes {
+			noteXML, err := xml.Marshal(footnote)
+			if err != nil {
+				return
+			}
+			fragment = append(fragment, bindWordNamespace(noteXML, "w:footnote")...)
+		}
+		if merged, ok := appendToRoot(manager.baseFootnotes, fragment); ok {
+			d.parts["word/footnotes.xml"] = merged
+			return
+		}
+	}
+
 	// 添加所有脚注
 	for _, footnote := range manager.footnotes {
 		footnotes.Footnotes = append(footnotes.Footnotes, footnote)
@@ -534,7 +607,7 @@ func (d *Document) updateFootnotesFile() {
 
 // updateEndnotesFile 更新尾注文件
 func (d *Document) updateEndnotesFile() {
-	manager := getFootnoteManager()
+	manager := d.getFootnoteManager()
 
 	endnotes := &Endnotes{
 		Xmlns:    "http://schemas.openxmlformats.org/wordprocessingml/2006/main",
@@ -556,6 +629,22 @@ func (d *Document) updateEndnotesFile() {
 		},
 	}
 	endnotes.Endnotes = append(endnotes.Endnotes, separatorEndnote)
+
+	// 文档原有的尾注部件：只把新的尾注追加进去
+	if manager.baseEndnotes != nil {
+		var fragment []byte
+		for _, endnote := range manager.endnotes {
+			noteXML, err := xml.Marshal(endnote)
+			if err != nil {
+				return
+			}
+			fragment = append(fragment, bindWordNamespace(noteXML, "w:endnote")...)
+		}
+		if merged, ok := appendToRoot(manager.baseEndnotes, fragment); ok {
+			d.parts["word/endnotes.xml"] = merged
+			return
+		}
+	}
 
 	// 添加所有尾注
 	for _, endnote := range manager.endnotes {
@@ -597,19 +686,31 @@ func (d *Document) addEndnoteRelationship() {
 
 // GetFootnoteCount 获取脚注数量
 func (d *Document) GetFootnoteCount() int {
-	manager := getFootnoteManager()
-	return len(manager.footnotes)
+	manager := d.getFootnoteManager()
+	return len(manager.footnotes) + len(manager.baseFootnoteIDs)
 }
 
 // GetEndnoteCount 获取尾注数量
 func (d *Document) GetEndnoteCount() int {
-	manager := getFootnoteManager()
-	return len(manager.endnotes)
+	manager := d.getFootnoteManager()
+	return len(manager.endnotes) + len(manager.baseEndnoteIDs)
 }
 
 // RemoveFootnote 删除指定脚注
 func (d *Document) RemoveFootnote(footnoteID string) error {
-	manager := getFootnoteManager()
+	manager := d.getFootnoteManager()
+
+	if manager.baseFootnoteIDs[footnoteID] {
+		// 脚注来自文档原有的脚注部件
+		remaining, ok := removeExistingNote(manager.baseFootnotes, "footnote", footnoteID)
+		if !ok {
+			return fmt.Errorf("脚注 %s 不存在", footnoteID)
+		}
+		manager.baseFootnotes = remaining
+		delete(manager.baseFootnoteIDs, footnoteID)
+		d.updateFootnotesFile()
+		return nil
+	}
 
 	if _, exists := manager.footnotes[footnoteID]; !exists {
 		return fmt.Errorf("脚注 %s 不存在", footnoteID)
@@ -623,7 +724,19 @@ func (d *Document) RemoveFootnote(footnoteID string) error {
 
 // RemoveEndnote 删除指定尾注
 func (d *Document) RemoveEndnote(endnoteID string) error {
-	manager := getFootnoteManager()
+	manager := d.getFootnoteManager()
+
+	if manager.baseEndnoteIDs[endnoteID] {
+		// 尾注来自文档原有的尾注部件
+		remaining, ok := removeExistingNote(manager.baseEndnotes, "endnote", endnoteID)
+		if !ok {
+			return fmt.Errorf("尾注 %s 不存在", endnoteID)
+		}
+		manager.baseEndnotes = remaining
+		delete(manager.baseEndnoteIDs, endnoteID)
+		d.updateEndnotesFile()
+		return nil
+	}
 
 	if _, exists := manager.endnotes[endnoteID]; !exists {
 		return fmt.Errorf("尾注 %s 不存在", endnoteID)
